@@ -70,7 +70,15 @@ def run(ctx, progs):
     ctx.rule("DBG1", "debug_list().entries(<all elements in order>).finish()")
     ctx.rule("PS1", "size/start are shrunk before drop_range runs destructors and not written afterwards")
     ctx.rule("KIND1", "index-kind inference: physical positions and logical indices/lengths are never compared, and never stand in for each other")
+    ctx.rule("ITERAGG1", "every Iter/IterMut is built from (first, second) of one view or (right, left) of one iterator")
+    ctx.rule("TWIN", "the shared and the mutable form of each range/iterator helper are one algorithm (what range() shows does not depend on which form — or layout — produced it)")
     for cfg, prog in progs.items():
+        from . import c08 as _c08i
+        from .. import shapes as _shapes
+
+        _c08i.iteragg1(ctx, prog, cfg)
+        for a_, b_ in _c08i.PAIRS:
+            _shapes.twin(ctx, "TWIN", prog, a_, b_, cfg, what="the shared and the mutable form of one view")
         if cfg == "default_dbg":
             acc1_beliefs(ctx, prog, cfg)
             continue
